@@ -280,8 +280,10 @@ def SchemaOK (s : Schema) : Bool :=
   && s.prepared.all (fun p => decide (p.1 ∈ s.fieldNames) && !decide (p.1 ∈ s.written)
         && s.preparedOwn p)
 
-/-- Validation coverage: every field that is read with `Validate::No` is visited by `Valid::check`
-(`.check()?` or an explicit comparison) unless it is a `usize`, whose `check` is trivial. -/
+/-- Validation coverage (informational — not part of C12's statement, so no theorem of Props/C12
+depends on it; `translators/ser_schema_selftest.py` reports it): every field that is read with
+`Validate::No` is visited by `Valid::check` (`.check()?` or an explicit comparison) unless it is a
+`usize`, whose `check` is trivial. -/
 def ValidateOK (s : Schema) : Bool :=
   s.read.all (fun r => r.passValidate || decide (r.field ∈ s.checked)
     || decide (r.field ∈ s.inspected) || decide ((r.field, "usize") ∈ s.fields))
